@@ -17,6 +17,7 @@ Require Import List ZArith Bool.
 Import ListNotations.
 Require Import LV.Err.ErrBase LV.Gen.ErrnoGen LV.Err.OrderModel LV.Err.OrderProofs LV.Err.ContractModel LV.Err.ContractProofs.
 Require Import LV.Err.RefutedModel LV.Err.ContractProofs2 LV.Err.NewModel LV.Err.NewProofs LV.Err.DataGetters.
+Require Import LV.Err.HistModel LV.Err.HistProofs.
 Require LV.Data.DataModel.
 Require Import QArith.
 Open Scope Z_scope.
@@ -113,14 +114,15 @@ Proof. exact data_order_fits_l. Qed.
 Print Assumptions data_order_fits.
 
 (* as found in the C text: every function of the family except vnadata_init has all its handle tests and
-   argument checks in front of its first write; vnadata_init = two writes (resize to empty, set_all_z0)
-   followed by the body of vnadata_resize *)
+   argument checks in front of its first write; vnadata_init = two writes (resize to empty, set_all_z0 - a write
+   that can fail once vnadata_init passes its failure on, fix DE80) followed by the body of vnadata_resize *)
 Theorem data_orders_checks_first : forall c, is_init c = false -> checks_first (dcall_order c) = true.
 Proof. exact data_orders_checks_first_l. Qed.
 Print Assumptions data_orders_checks_first.
 
 Theorem data_init_order :
-  gen_order_vnadata_init = EvW :: EvW :: gen_order_vnadata_resize /\ checks_first gen_order_vnadata_init = false.
+  (exists w2, is_write w2 = true /\ gen_order_vnadata_init = EvW :: w2 :: gen_order_vnadata_resize) /\
+  checks_first gen_order_vnadata_init = false.
 Proof. exact data_init_order_l. Qed.
 Print Assumptions data_init_order.
 
@@ -272,65 +274,108 @@ Print Assumptions query_step_satisfiable.
       read from the C text (gen_add_common_prevalidates; gen_order_vnaproperty_vset,
       gen_order_vnaproperty_vset_subtree) and is a premise of the theorems. *)
 
-(* the registration model in the order found in the C text (the one the tie runs): for every parameter
-   table (valid, unknown), every summary and every s-matrix, when the validation pass precedes the
-   registration loop a refused standard leaves registered parameters, unknown count and measurement
-   count as they were *)
-Theorem rejected_standard_summary_unchanged : forall valid unknown s cells s' v r,
-  gen_add_common_prevalidates = true ->
-  add_standard_current valid unknown s cells = (s', Refuse v r) -> s' = s.
+(* as found in the C text of the working tree: the validation loop of _vnacal_new_add_common precedes its
+   registration loop, _vnacal_new_check_parameter walks down to the correlate of a correlated parameter
+   (seeded change C11-4 removes that), and so does _vnacal_new_get_parameter *)
+Theorem add_prevalidation_as_found :
+  gen_add_common_prevalidates = true /\ gen_check_parameter_recurses = true /\ gen_get_parameter_recurses = true.
+Proof. exact add_prevalidation_as_found_l. Qed.
+Print Assumptions add_prevalidation_as_found.
+
+(* the registration model in the order found in the C text (the one the tie runs): for every summary of
+   the vnacal_new_t (registered handles, counts, calibration frequency range) and every S matrix whose cells
+   are ARBITRARY PARAMETER CHAINS - correlated -> correlated -> ... -> scalar / vector / unknown, any node
+   deleted, each with its own frequency range and sigma frequencies, handles out of range - when the
+   validation pass precedes the registration loop and walks down to the correlates, a refused standard
+   leaves registered parameters, unknown count, correlated count and measurement count as they were *)
+Theorem rejected_standard_summary_unchanged : forall s cells s' v r,
+  gen_add_common_prevalidates = true -> gen_check_parameter_recurses = true ->
+  add_standard_current s cells = (s', Refuse v r) -> s' = s.
 Proof. exact rejected_standard_current_l. Qed.
 Print Assumptions rejected_standard_summary_unchanged.
 
 (* the same over the whole modelled vnacal_new_t (type, dimensions, frequency state, error-model flag,
    parameter summary, abstract rest), for every refusal of _vnacal_new_add_common - dimension and port
-   map tests, invalid parameter, singular 'a' matrix, incomplete S with T16/U16: the object is the one
-   the call was given, and the refusal came from an argument check, none from the registration.
-   (Not in the model: correlated-parameter count, reference counts of the parameters, allocation failure
-   inside the registration loop - C12.) *)
-Theorem rejected_standard_adds_nothing : forall (payload : Type) valid unknown work pre (o : nobj payload) a v r,
-  gen_add_common_prevalidates = true -> ncall_ordered (NAdd a) = true ->
-  snd (new_step payload valid unknown work pre o (NAdd a)) = Refuse v r ->
-  fst (new_step payload valid unknown work pre o (NAdd a)) = o /\
-  exists v' r', new_run payload valid unknown work pre o (NAdd a) = (o, MRefused v' r').
+   map tests, invalid parameter anywhere in a chain, singular 'a' matrix, incomplete S with T16/U16: the
+   object is the one the call was given, and the refusal came from an argument check, none from the
+   registration.
+   (Not in the model: reference counts of the parameters, allocation failure inside the registration loop - C12.) *)
+Theorem rejected_standard_adds_nothing : forall (payload : Type) work pre (o : nobj payload) a v r,
+  gen_add_common_prevalidates = true -> gen_check_parameter_recurses = true -> ncall_ordered (NAdd a) = true ->
+  snd (new_step payload work pre o (NAdd a)) = Refuse v r ->
+  fst (new_step payload work pre o (NAdd a)) = o /\
+  exists v' r', new_run payload work pre o (NAdd a) = (o, MRefused v' r').
 Proof. exact rejected_standard_adds_nothing_l. Qed.
 Print Assumptions rejected_standard_adds_nothing.
 
-(* after the validation pass the registration loop cannot refuse any more *)
-Theorem register_after_check : forall valid unknown cells s,
-  forallb (check_parameter valid s) cells = true -> snd (register_cells valid unknown s cells) = true.
-Proof. exact register_after_check_l. Qed.
+(* after the validation pass (with the walk down to the correlates) the registration loop cannot refuse any
+   more, whether or not the registration itself walks down *)
+Theorem register_after_check : forall rg cells s,
+  forallb (check_chain_with true s) cells = true -> snd (register_cells_with rg s cells) = true.
+Proof. exact register_after_check_with. Qed.
 Print Assumptions register_after_check.
 
-(* the two hand-written orders (validate first / register as you go) refuse the same standards and do
-   the same on the accepted ones: a statement about the two models, not about the code *)
-Theorem model_variant_orders_same_verdict : forall valid unknown s cells,
-  is_pass (snd (add_standard_validate_first valid unknown s cells)) = is_pass (snd (add_standard_register_first valid unknown s cells)) /\
-  (is_pass (snd (add_standard_validate_first valid unknown s cells)) = true ->
-   add_standard_validate_first valid unknown s cells = add_standard_register_first valid unknown s cells).
+(* a chain that passed the validation stays valid while other parameters are registered *)
+Theorem validation_monotone : forall rc s s' c,
+  extends s s' -> check_chain_with rc s c = true -> check_chain_with rc s' c = true.
+Proof. exact check_mono. Qed.
+Print Assumptions validation_monotone.
+
+(* the two hand-written orders (validate first / register as you go) refuse the same standards and do the same on
+   the accepted ones, on S matrices without correlated parameters whose validity is a function of the handle: a
+   statement about the two models, not about the code *)
+Theorem model_variant_orders_same_verdict : forall ok rg s cells,
+  Forall (flat_ok ok s) cells ->
+  is_pass (snd (add_standard_validate_first_with true rg s cells)) = is_pass (snd (add_standard_register_first_with rg s cells)) /\
+  (is_pass (snd (add_standard_validate_first_with true rg s cells)) = true ->
+   add_standard_validate_first_with true rg s cells = add_standard_register_first_with rg s cells).
 Proof. exact add_standard_same_verdict_l. Qed.
 Print Assumptions model_variant_orders_same_verdict.
 
+(* its hypothesis is met by every S matrix made from a parameter table without correlated parameters *)
+Theorem model_variant_orders_same_verdict_satisfiable : forall valid unknown s hs,
+  n_calrange s = None -> Forall (flat_ok valid s) (map (flat_cell valid unknown) hs).
+Proof. exact flat_cells_ok. Qed.
+Print Assumptions model_variant_orders_same_verdict_satisfiable.
+
 (* model variant (register as you go, the order before the repair of D17): a standard refused for a later
-   handle leaves the earlier ones registered and counted - the premise of the two theorems above is needed *)
+   handle leaves the earlier ones registered and counted - the premise gen_add_common_prevalidates is needed *)
 Theorem model_variant_register_first_keeps_registrations :
-  exists valid unknown s cells s',
-    add_standard_register_first valid unknown s cells = (s', Refuse VM1 (Via USAGE)) /\ s' <> s.
+  exists rg s cells s',
+    add_standard_register_first_with rg s cells = (s', Refuse VM1 (Via USAGE)) /\ s' <> s.
 Proof. exact model_variant_register_first_keeps_registrations_l. Qed.
 Print Assumptions model_variant_register_first_keeps_registrations.
 
+(* model variant (validation pass that does not walk down to the correlate: what seeded change C11-4 makes of
+   _vnacal_new_check_parameter): S = (fresh unknown 5, correlated 7 -> correlated 6 -> vector 4) with 6 too
+   narrow for the calibration range, or deleted: refused, but the unknown stays registered and counted; with
+   the walk the same standards leave the summary as it was - the premise gen_check_parameter_recurses is needed *)
+Theorem model_variant_shallow_check_keeps_registrations :
+  (exists s', add_standard_validate_first_with false true ex_s0 [ex_u5; ex_c7_narrow] = (s', Refuse VM1 (Via USAGE)) /\ s' <> ex_s0) /\
+  (exists s', add_standard_validate_first_with false true ex_s0 [ex_u5; ex_c9_deleted] = (s', Refuse VM1 (Via USAGE)) /\ s' <> ex_s0) /\
+  add_standard_validate_first_with true true ex_s0 [ex_u5; ex_c7_narrow] = (ex_s0, Refuse VM1 (Via USAGE)) /\
+  add_standard_validate_first_with true true ex_s0 [ex_u5; ex_c9_deleted] = (ex_s0, Refuse VM1 (Via USAGE)).
+Proof. exact model_variant_shallow_check_keeps_registrations_l. Qed.
+Print Assumptions model_variant_shallow_check_keeps_registrations.
+
 Theorem rejected_standard_satisfiable :
-  let valid := fun h => (0 <=? h) && (h <=? 5) in
-  let unknown := fun h => h =? 5 in
-  let o := mknobj unit (mknsum T8 2 2 3 true false (mknew [0] 0 0)) tt in
-  let bad := mkadd false None 2 2 2 2 (Some [1; 2]) [5; 99] false false in
-  let good := mkadd false None 2 2 2 2 (Some [1; 2]) [5; 3] false false in
-  gen_add_common_prevalidates = true /\ ncall_ordered (NAdd bad) = true /\
-  new_step unit valid unknown (fun o _ => o) (fun o => o) o (NAdd bad) = (o, Refuse VM1 (Via USAGE)) /\
-  new_step unit valid unknown (fun o _ => o) (fun o => o) o (NAdd good)
-    = (mknobj unit (mknsum T8 2 2 3 true false (mknew [0; 5; 3] 1 1)) tt, Pass) /\
-  add_standard_current valid unknown (mknew [0] 0 0) [5; 99] = (mknew [0] 0 0, Refuse VM1 (Via USAGE)).
-Proof. repeat split; vm_compute; reflexivity. Qed.
+  let o := mknobj unit (mknsum T8 2 2 3 true false ex_s0) tt in
+  let bad := mkadd false None 2 2 2 2 (Some [1; 2]) [ex_u5; ChNone 99] false false in
+  let narrow := mkadd false None 2 2 2 2 (Some [1; 2]) [ex_u5; ex_c7_narrow] false false in
+  let deleted := mkadd false None 2 2 2 2 (Some [1; 2]) [ex_u5; ex_c9_deleted] false false in
+  let good := mkadd false None 2 2 2 2 (Some [1; 2]) [ex_u5; ex_c11_good] false false in
+  gen_add_common_prevalidates = true /\ gen_check_parameter_recurses = true /\ ncall_ordered (NAdd bad) = true /\
+  new_step unit (fun o _ => o) (fun o => o) o (NAdd bad) = (o, Refuse VM1 (Via USAGE)) /\
+  new_step unit (fun o _ => o) (fun o => o) o (NAdd narrow) = (o, Refuse VM1 (Via USAGE)) /\
+  new_step unit (fun o _ => o) (fun o => o) o (NAdd deleted) = (o, Refuse VM1 (Via USAGE)) /\
+  new_step unit (fun o _ => o) (fun o => o) o (NAdd good)
+    = (mknobj unit (mknsum T8 2 2 3 true false (mknew [0; 5; 4; 10; 11] 3 2 1 (Some (1%Q, 3%Q)))) tt, Pass) /\
+  add_standard_current ex_s0 [ex_u5; ex_c7_narrow] = (ex_s0, Refuse VM1 (Via USAGE)) /\
+  extends ex_s0 (mknew [0; 5; 4; 10; 11] 3 2 1 (Some (1%Q, 3%Q))).
+Proof.
+  repeat split; try (vm_compute; reflexivity). intros h H. unfold known in *. simpl in *.
+  rewrite Bool.orb_false_r in H. apply Z.eqb_eq in H. subst h. reflexivity.
+Qed.
 Print Assumptions rejected_standard_satisfiable.
 
 (* vnaproperty_vset / vnaproperty_vset_subtree over paths of map keys: for every order of their
@@ -405,8 +450,8 @@ Print Assumptions new_alloc_refusal_iff_invalid.
 (* every refusal returns -1 and calls the error function once (not for a NULL handle, which the
    functions that test it - all of them, as found: gen_handle_<f> - answer with EINVAL); it is a usage
    error, or the singular 'a' matrix of an add with a given 'a', or the category a solve kernel reported *)
-Theorem new_fail_classified : forall valid h c v r,
-  check_new valid h c = Refuse v r ->
+Theorem new_fail_classified : forall h c v r,
+  check_new h c = Refuse v r ->
   v = VM1 /\
   callbacks r = match h with None => 0%nat | Some _ => 1%nat end /\
   match h with
@@ -418,8 +463,8 @@ Print Assumptions new_fail_classified.
 
 (* errno through the generated table: EINVAL; EDOM only for an add; for solve the class of the
    reported category (EDOM for VNAERR_MATH) *)
-Theorem new_errno : forall valid s c v r,
-  check_new valid (Some s) c = Refuse v r ->
+Theorem new_errno : forall s c v r,
+  check_new (Some s) c = Refuse v r ->
   actual_errno r = E_INVAL \/
   (actual_errno r = E_DOM /\ exists a, c = NAdd a) \/
   (exists k, c = NSolve (Some k) /\ actual_errno r = doc_errno k).
@@ -436,28 +481,27 @@ Print Assumptions new_orders_checks_first.
    abstraction of the work and of the rest of the object: a call refused BY AN ARGUMENT CHECK leaves the
    object equal.  A failure inside the work (MLate: the numeric kernels of vnacal_new_solve, which have
    written results of earlier frequencies by then) is not covered: see property C20 for a failed solve. *)
-Theorem new_arg_refused_unchanged : forall (payload : Type) valid unknown work pre (o : nobj payload) c o' v r,
-  ncall_ordered c = true -> new_run payload valid unknown work pre o c = (o', MRefused v r) -> o' = o.
+Theorem new_arg_refused_unchanged : forall (payload : Type) work pre (o : nobj payload) c o' v r,
+  ncall_ordered c = true -> new_run payload work pre o c = (o', MRefused v r) -> o' = o.
 Proof. exact new_arg_refused_unchanged_l. Qed.
 Print Assumptions new_arg_refused_unchanged.
 
 (* link between the step and the decision function check_new_some of the theorems above *)
-Theorem new_step_outcome : forall (payload : Type) valid unknown work pre (o : nobj payload) c,
-  gen_add_common_prevalidates = true -> ncall_ordered c = true ->
-  snd (new_step payload valid unknown work pre o c) = check_new_some valid (no_sum payload o) c.
+Theorem new_step_outcome : forall (payload : Type) work pre (o : nobj payload) c,
+  gen_add_common_prevalidates = true -> gen_check_parameter_recurses = true -> ncall_ordered c = true ->
+  snd (new_step payload work pre o c) = check_new_some (no_sum payload o) c.
 Proof. exact new_step_outcome_l. Qed.
 Print Assumptions new_step_outcome.
 
 Theorem new_step_satisfiable :
-  let valid := fun h => (0 <=? h) && (h <=? 5) in
-  let o := mknobj nat (mknsum T8 2 2 3 false false (mknew [0] 0 0)) 0%nat in
+  let o := mknobj nat (mknsum T8 2 2 3 false false ex_new0) 0%nat in
   let bump := fun (x : nobj nat) (_ : ncall) => mknobj nat (no_sum nat x) (S (no_rest nat x)) in
   ncall_ordered (NSetPvalue (Some 2%Q)) = true /\
-  new_run nat valid (fun _ => false) bump (fun x => x) o (NSetPvalue (Some 2%Q)) = (o, MRefused VM1 (Via USAGE)) /\
-  new_run nat valid (fun _ => false) bump (fun x => x) o (NSetPvalue (Some (1#2)%Q)) = (bump o NSetZ0, MPass) /\
-  new_run nat valid (fun _ => false) bump (fun x => x) o (NSolve None) = (o, MRefused VM1 (Via USAGE)) /\
-  new_run nat valid (fun _ => false) bump (fun x => x) (mknobj nat (mknsum T8 2 2 3 true false (mknew [0] 0 0)) 0%nat) (NSolve (Some MATH))
-    = (mknobj nat (mknsum T8 2 2 3 true false (mknew [0] 0 0)) 1%nat, MLate VM1 (Via MATH)).
+  new_run nat bump (fun x => x) o (NSetPvalue (Some 2%Q)) = (o, MRefused VM1 (Via USAGE)) /\
+  new_run nat bump (fun x => x) o (NSetPvalue (Some (1#2)%Q)) = (bump o NSetZ0, MPass) /\
+  new_run nat bump (fun x => x) o (NSolve None) = (o, MRefused VM1 (Via USAGE)) /\
+  new_run nat bump (fun x => x) (mknobj nat (mknsum T8 2 2 3 true false ex_new0) 0%nat) (NSolve (Some MATH))
+    = (mknobj nat (mknsum T8 2 2 3 true false ex_new0) 1%nat, MLate VM1 (Via MATH)).
 Proof. repeat split; vm_compute; reflexivity. Qed.
 Print Assumptions new_step_satisfiable.
 
@@ -490,35 +534,45 @@ Print Assumptions set_iteration_iff.
 (* whatever _vnacal_new_add_common accepts has a port map with pairwise distinct entries inside
    1..ports, S dimensions inside 1..ports, a measurement matrix no larger than the calibration
    (D48), and only parameters that passed the validation (D17) *)
-Theorem add_accepts_only_valid_map : forall valid s a m,
-  check_add valid s a = Pass -> aa_map a = Some m -> 1 <= v_ports s ->
+Theorem add_accepts_only_valid_map : forall s a m,
+  check_add s a = Pass -> aa_map a = Some m -> 1 <= v_ports s ->
   NoDup m /\ Forall (fun p => 1 <= p <= v_ports s) m /\
   1 <= aa_s_rows a <= v_ports s /\ 1 <= aa_s_cols a <= v_ports s /\
   aa_b_rows a <= v_rows s /\ aa_b_cols a <= v_cols s /\
-  forallb (check_parameter valid (v_params s)) (aa_cells a) = true.
+  forallb (check_parameter (v_params s)) (aa_cells a) = true.
 Proof. exact add_accepts_only_valid_map_l. Qed.
 Print Assumptions add_accepts_only_valid_map.
 
 Theorem new_contract_satisfiable :
   check_new_alloc T8 2 1 3 = Refuse VNULL (Via USAGE) /\
   check_new_alloc E12 2 1 3 = Pass /\
-  check_set_fv (mknsum T8 2 2 3 false false (mknew [0] 0 0)) (Some [Some 1%Q; Some 3%Q; Some 2%Q]) false
+  check_set_fv (mknsum T8 2 2 3 false false ex_new0) (Some [Some 1%Q; Some 3%Q; Some 2%Q]) false
     = Refuse VM1 (Via USAGE) /\
-  check_set_fv (mknsum T8 2 2 3 false false (mknew [0] 0 0)) (Some [Some 1%Q; None; Some 2%Q]) false
+  check_set_fv (mknsum T8 2 2 3 false false ex_new0) (Some [Some 1%Q; None; Some 2%Q]) false
     = Refuse VM1 (Via USAGE) /\
-  check_set_fv (mknsum T8 2 2 3 false false (mknew [0] 0 0)) (Some [Some 1%Q; Some 2%Q; Some 3%Q]) false = Pass /\
-  check_add (fun h => (0 <=? h) && (h <=? 5)) (mknsum T8 2 2 3 true false (mknew [0] 0 0))
-    (mkadd false None 2 2 2 2 (Some [1; 1]) [2; 1] false false) = Refuse VM1 (Via USAGE) /\
-  check_add (fun h => (0 <=? h) && (h <=? 5)) (mknsum T16 2 2 3 true false (mknew [0] 0 0))
-    (mkadd false None 3 2 2 2 (Some [1; 2]) [2; 0; 0; 1] false false) = Refuse VM1 (Via USAGE) /\
-  check_add (fun h => (0 <=? h) && (h <=? 5)) (mknsum T8 2 2 3 true false (mknew [0] 0 0))
-    (mkadd false None 2 2 2 2 (Some [1; 2]) [5; 99] false false) = Refuse VM1 (Via USAGE) /\
-  check_add (fun h => (0 <=? h) && (h <=? 5)) (mknsum T8 2 2 3 true false (mknew [0] 0 0))
-    (mkadd false None 2 2 2 2 (Some [2; 1]) [2; 1] false false) = Pass /\
-  check_add (fun h => (0 <=? h) && (h <=? 5)) (mknsum UE14 2 2 3 true false (mknew [0] 0 0))
-    (mkadd false (Some (1, 2)) 2 2 2 2 (Some [1; 2]) [2; 1] true false) = Refuse VM1 (Via MATH) /\
-  check_solve (mknsum T8 2 2 3 false false (mknew [0] 0 0)) None = Refuse VM1 (Via USAGE) /\
-  check_solve (mknsum T8 2 2 3 true false (mknew [0] 0 0)) (Some MATH) = Refuse VM1 (Via MATH).
+  check_set_fv (mknsum T8 2 2 3 false false ex_new0) (Some [Some 1%Q; Some 2%Q; Some 3%Q]) false = Pass /\
+  (* double reflect on ports 1, 1 *)
+  check_add (mknsum T8 2 2 3 true false ex_new0)
+    (mkadd false None 2 2 2 2 (Some [1; 1]) (ex_cells [2; 1]) false false) = Refuse VM1 (Via USAGE) /\
+  (* an m matrix larger than the calibration (D48) *)
+  check_add (mknsum T16 2 2 3 true false ex_new0)
+    (mkadd false None 3 2 2 2 (Some [1; 2]) (ex_cells [2; 0; 0; 1]) false false) = Refuse VM1 (Via USAGE) /\
+  (* unknown parameter then invalid handle (D17): refused by the validation pass *)
+  check_add (mknsum T8 2 2 3 true false ex_new0)
+    (mkadd false None 2 2 2 2 (Some [1; 2]) (ex_cells [5; 99]) false false) = Refuse VM1 (Via USAGE) /\
+  (* unknown parameter then a correlated parameter whose correlate is too narrow / deleted (seeded C11-4) *)
+  check_add (mknsum T8 2 2 3 true false ex_s0)
+    (mkadd false None 2 2 2 2 (Some [1; 2]) [ex_u5; ex_c7_narrow] false false) = Refuse VM1 (Via USAGE) /\
+  check_add (mknsum T8 2 2 3 true false ex_s0)
+    (mkadd false None 2 2 2 2 (Some [1; 2]) [ex_u5; ex_c9_deleted] false false) = Refuse VM1 (Via USAGE) /\
+  check_add (mknsum T8 2 2 3 true false ex_s0)
+    (mkadd false None 2 2 2 2 (Some [1; 2]) [ex_u5; ex_c11_good] false false) = Pass /\
+  check_add (mknsum T8 2 2 3 true false ex_new0)
+    (mkadd false None 2 2 2 2 (Some [2; 1]) (ex_cells [2; 1]) false false) = Pass /\
+  check_add (mknsum UE14 2 2 3 true false ex_new0)
+    (mkadd false (Some (1, 2)) 2 2 2 2 (Some [1; 2]) (ex_cells [2; 1]) true false) = Refuse VM1 (Via MATH) /\
+  check_solve (mknsum T8 2 2 3 false false ex_new0) None = Refuse VM1 (Via USAGE) /\
+  check_solve (mknsum T8 2 2 3 true false ex_new0) (Some MATH) = Refuse VM1 (Via MATH).
 Proof. exact new_examples. Qed.
 Print Assumptions new_contract_satisfiable.
 
@@ -618,3 +672,124 @@ Theorem cleanup_disturbance_decides_spec_level : forall e steps e' rest,
   Forall (fun st => st = None) rest -> errno_after_cleanup e (steps ++ Some e' :: rest) = e'.
 Proof. exact cleanup_last_disturbance_l. Qed.
 Print Assumptions cleanup_disturbance_decides_spec_level.
+
+(* 9. Histories: lists of calls run one after the other on one object (hrun), over the step functions of the
+      modelled machines.  kept = the history without the calls an argument check refused (decided call by call
+      on the object each call finds). *)
+
+(* for every state type, every step function, every history ops1 ++ [op] ++ ops2 and every start: when op - a
+   call that returns its object whenever an argument check refuses it - is refused where it stands, the history
+   without it ends in the same object, and all other calls get the answers they got *)
+Theorem refusals_erasable : forall (St Op : Type) (step : St -> Op -> St * mres) ops1 op ops2 s v r,
+  unchanged_when_refused step op ->
+  snd (step (fst (hrun step s ops1)) op) = MRefused v r ->
+  fst (hrun step s (ops1 ++ op :: ops2)) = fst (hrun step s (ops1 ++ ops2)) /\
+  snd (hrun step s (ops1 ++ op :: ops2)) =
+    snd (hrun step s ops1) ++ MRefused v r :: snd (hrun step (fst (hrun step s ops1)) ops2) /\
+  snd (hrun step s (ops1 ++ ops2)) = snd (hrun step s ops1) ++ snd (hrun step (fst (hrun step s ops1)) ops2).
+Proof. exact refusals_erasable_l. Qed.
+Print Assumptions refusals_erasable.
+
+(* all refusals of a history at once *)
+Theorem all_refusals_erasable : forall (St Op : Type) (step : St -> Op -> St * mres) ops s,
+  Forall (unchanged_when_refused step) ops ->
+  fst (hrun step s (kept step s ops)) = fst (hrun step s ops) /\
+  snd (hrun step s (kept step s ops)) = filter (fun m => negb (arg_refused m)) (snd (hrun step s ops)).
+Proof. exact all_refusals_erasable_l. Qed.
+Print Assumptions all_refusals_erasable.
+
+(* vnadata family: every history of calls whose C function tests before it writes (as found: every function but
+   vnadata_init, data_orders_checks_first), every abstraction of the writes and of the rest of the object, every
+   start object: the object at the end - summary and rest - is the one the history without the refused calls ends
+   in, and the other calls answer the same *)
+Theorem data_history_refusals_erasable : forall (payload : Type) work ops (o : dobj payload),
+  Forall (fun c => checks_first (dcall_order c) = true) ops ->
+  fst (hrun (data_run payload work) o (kept (data_run payload work) o ops)) = fst (hrun (data_run payload work) o ops) /\
+  snd (hrun (data_run payload work) o (kept (data_run payload work) o ops)) =
+    filter (fun m => negb (arg_refused m)) (snd (hrun (data_run payload work) o ops)).
+Proof. exact data_refusals_erasable_l. Qed.
+Print Assumptions data_history_refusals_erasable.
+
+(* ... with the vnadata_t model of property C15 as the rest of the object: everything the public getters answer at
+   the end of the history (observe) is what they answer at the end of the history without the refused calls *)
+Theorem data_history_getters_unchanged : forall (V : Type) work (o : dobj (LV.Data.DataModel.vd V)) ops,
+  Forall (fun c => checks_first (dcall_order c) = true) ops ->
+  LV.Data.DataModel.observe V (o_rest _ (fst (hrun (data_run _ work) o (kept (data_run _ work) o ops)))) =
+  LV.Data.DataModel.observe V (o_rest _ (fst (hrun (data_run _ work) o ops))).
+Proof. exact data_history_observe_l. Qed.
+Print Assumptions data_history_getters_unchanged.
+
+(* the invariant under which all checks are defined holds after EVERY history of the 26 calls - vnadata_init
+   included, accepted or refused: every failing call leaves an object the next call can be made on *)
+Theorem data_history_inv : forall (payload : Type) work ops (o : dobj payload),
+  data_inv (o_sum payload o) -> data_inv (o_sum payload (fst (hrun (data_run payload work) o ops))).
+Proof. exact data_history_inv_l. Qed.
+Print Assumptions data_history_inv.
+
+(* vnacal_new_t: as found in the working tree every function of the family tests its arguments before it writes
+   (new_orders_checks_first), so for EVERY history - frequency vector, z0, standards, error model, limits, solves
+   that pass or fail inside the kernels - every start object and every abstraction of the work: the history without
+   its argument refusals ends in the same object with the same answers *)
+Theorem new_history_refusals_erasable : forall (payload : Type) work pre ops (o : nobj payload),
+  fst (hrun (new_run payload work pre) o (kept (new_run payload work pre) o ops)) = fst (hrun (new_run payload work pre) o ops) /\
+  snd (hrun (new_run payload work pre) o (kept (new_run payload work pre) o ops)) =
+    filter (fun m => negb (arg_refused m)) (snd (hrun (new_run payload work pre) o ops)).
+Proof. exact new_refusals_erasable_l. Qed.
+Print Assumptions new_history_refusals_erasable.
+
+(* ... and under the order and the recursion found in _vnacal_new_add_common / _vnacal_new_check_parameter every
+   refused standard is such a refusal (never a failure from inside the registration): rejected standards can be
+   deleted from any history of a calibration *)
+Theorem refused_standard_is_argument_refusal : forall (payload : Type) work pre (o : nobj payload) a v r,
+  gen_add_common_prevalidates = true -> gen_check_parameter_recurses = true ->
+  snd (new_step payload work pre o (NAdd a)) = Refuse v r ->
+  arg_refused (snd (new_run payload work pre o (NAdd a))) = true.
+Proof. exact new_add_refusal_is_arg_refusal_l. Qed.
+Print Assumptions refused_standard_is_argument_refusal.
+
+(* the registration summary over any sequence of standards whose S cells are arbitrary parameter chains *)
+Theorem standards_history_refusals_erasable : forall stds s,
+  gen_add_common_prevalidates = true -> gen_check_parameter_recurses = true ->
+  fst (hrun standard_step s (kept standard_step s stds)) = fst (hrun standard_step s stds) /\
+  snd (hrun standard_step s (kept standard_step s stds)) =
+    filter (fun m => negb (arg_refused m)) (snd (hrun standard_step s stds)).
+Proof. exact standards_refusals_erasable_l. Qed.
+Print Assumptions standards_history_refusals_erasable.
+
+(* parameter table of the vnacal_t and its slot table of calibrations (getters, find, delete, the ci argument of
+   the property functions): every history, as found *)
+Theorem param_history_refusals_erasable : forall work pre ops tb,
+  fst (hrun (param_run work pre) tb (kept (param_run work pre) tb ops)) = fst (hrun (param_run work pre) tb ops) /\
+  snd (hrun (param_run work pre) tb (kept (param_run work pre) tb ops)) =
+    filter (fun m => negb (arg_refused m)) (snd (hrun (param_run work pre) tb ops)).
+Proof. exact param_refusals_erasable_l. Qed.
+Print Assumptions param_history_refusals_erasable.
+
+Theorem query_history_refusals_erasable : forall pre ops sl,
+  fst (hrun (query_run pre) sl (kept (query_run pre) sl ops)) = fst (hrun (query_run pre) sl ops) /\
+  snd (hrun (query_run pre) sl (kept (query_run pre) sl ops)) =
+    filter (fun m => negb (arg_refused m)) (snd (hrun (query_run pre) sl ops)).
+Proof. exact query_refusals_erasable_l. Qed.
+Print Assumptions query_history_refusals_erasable.
+
+(* the hypotheses are met: a history of eight calls on an S 2x2x3 object of which four are refused (index out of
+   range, dimensions against the type, port out of range) - every one of them a call of a function that tests
+   first -, and three standards of which the one with the too narrow correlate is refused *)
+Theorem data_history_satisfiable :
+  kept (data_run nat ex_count_work) ex_dobj ex_dhist = [CSetCell 0 0 0; CSetFz0 1 1; CAddFrequency false; CSetCell 3 1 1] /\
+  fst (hrun (data_run nat ex_count_work) ex_dobj ex_dhist) = mkdobj nat (mkdsum 1 2 2 4 true) 6%nat /\
+  fst (hrun (data_run nat ex_count_work) ex_dobj (kept (data_run nat ex_count_work) ex_dobj ex_dhist))
+    = mkdobj nat (mkdsum 1 2 2 4 true) 6%nat /\
+  map arg_refused (snd (hrun (data_run nat ex_count_work) ex_dobj ex_dhist)) = [false; true; true; false; true; false; true; false] /\
+  Forall (fun c => checks_first (dcall_order c) = true) ex_dhist.
+Proof. exact data_history_example. Qed.
+Print Assumptions data_history_satisfiable.
+
+Theorem standards_history_satisfiable :
+  let stds := [[ChEnd 2 true false 0%Q None; ChEnd 1 true false 0%Q None]; [ex_u5; ex_c7_narrow];
+               [ChEnd 0 true false 0%Q None; ex_c11_good]] in
+  kept standard_step ex_s0 stds = [[ChEnd 2 true false 0%Q None; ChEnd 1 true false 0%Q None]; [ChEnd 0 true false 0%Q None; ex_c11_good]] /\
+  fst (hrun standard_step ex_s0 stds) = mknew [0; 2; 1; 4; 10; 11] 2 2 2 (Some (1%Q, 3%Q)) /\
+  fst (hrun standard_step ex_s0 (kept standard_step ex_s0 stds)) = mknew [0; 2; 1; 4; 10; 11] 2 2 2 (Some (1%Q, 3%Q)).
+Proof. exact standards_history_example. Qed.
+Print Assumptions standards_history_satisfiable.
